@@ -128,3 +128,177 @@ class RuleProxy:
         r = self._r(rule)
         if r:
             self.ck.floor(r, n)
+
+
+def table_signature(fn, max_visits=2):
+    """configuration-independent signature of a function's decision table: per path, the branch
+    decisions (as source text), the error codes queued, the calls made and the returned value"""
+    from sa import paths as P_
+    def atom_sig(a):
+        out = []
+        stack = [a]
+        while stack:
+            n = stack.pop()
+            if "cv" in n and n.k not in ("DeclRefExpr", "MemberExpr"):
+                out.append(("c", n["cv"]))      # folded constant: spelling (TRUE, NULL, enum names) does not matter
+                continue
+            if n.k == "CallExpr":
+                out.append(("call", n.get("callee") or "<indirect>"))
+            elif n.k in ("DeclRefExpr", "MemberExpr") and n.get("path"):
+                out.append(("p", n["path"]))
+                if n.k == "MemberExpr":
+                    continue
+            elif n.k in ("BinaryOperator", "UnaryOperator"):
+                out.append(("op", n.get("op")))
+            stack.extend(n.ch)
+        return tuple(sorted(out, key=repr))
+    rows = set()
+    for ps in P_.summarize(fn, max_visits=max_visits, limit=50000):
+        facts = tuple((atom_sig(a), pol if not isinstance(pol, tuple) else (pol[0], pol[1] if len(pol) > 1 and isinstance(pol[1], int) else None))
+                      for a, pol in ps.facts)
+        calls = tuple(c.get("callee") or "<indirect>" for c in ps.calls)
+        r = ps.ret
+        ret = None if r is None else ((r.kind, r.v) if r.kind in ("const", "ge") else (r.kind, (r.node.get("callee") if r.node is not None else None), r.pol))
+        rows.add((facts, calls, ret))
+    return rows
+
+
+def cross_config(ck, fb, rule, names):
+    """thorough tier: the decision tables of configuration-independent functions must be identical in
+    every build configuration that was analysed"""
+    cfgs = list(fb.configs)
+    if len(cfgs) < 2:
+        return
+    ref_cfg = cfgs[0]
+    for name in names:
+        sigs = {}
+        for cfg in cfgs:
+            f = fb[cfg].fn(name)
+            if f is None:
+                sigs[cfg] = None
+                continue
+            try:
+                sigs[cfg] = table_signature(f)
+            except Exception as e:   # too many paths etc.
+                sigs[cfg] = "error: %s" % e
+        ck.config = ref_cfg
+        f0 = fb[ref_cfg].fn(name)
+        st = site(name, "cross-configuration", 0)
+        where = loc(f0) if f0 is not None else "libscpi/src:0"
+        diff = [c for c in cfgs[1:] if sigs[c] != sigs[ref_cfg]]
+        if sigs[ref_cfg] is None:
+            ck.anchor_lost(rule, "function %s" % name)
+        elif diff:
+            c = diff[0]
+            a, b = sigs[ref_cfg], sigs[c]
+            ex = None
+            if isinstance(a, set) and isinstance(b, set):
+                only = sorted(a ^ b)[:1]
+                ex = str(only[0])[:300] if only else None
+            ck.violated(rule, st, where, "the decision table of %s differs between configurations %s and %s although the function "
+                        "does not depend on the configuration (e.g. %s)" % (name, ref_cfg, c, ex))
+        else:
+            ck.holds(rule, st, where, "identical decision table (%d rows) in configurations %s"
+                     % (len(sigs[ref_cfg]) if isinstance(sigs[ref_cfg], set) else 0, "".join(cfgs)))
+
+
+NEG = {"<": ">=", "<=": ">", ">": "<=", ">=": "<", "==": "!=", "!=": "=="}
+FLIP = {"<": ">", "<=": ">=", ">": "<", ">=": "<=", "==": "==", "!=": "!="}
+
+
+def operand_key(n):
+    """path of a variable operand, ('c', value) of a constant operand, else None"""
+    s = n.strip_all_casts()
+    c = C.const_of(s)
+    if c is not None and s.k not in ("DeclRefExpr", "MemberExpr"):
+        return ("c", c)
+    if s.k == "DeclRefExpr" and s["decl"]["kind"] == "enumconst":
+        return ("c", s["decl"]["val"])
+    p = s.get("path")
+    if p:
+        return p
+    if s.k == "CallExpr" and s.get("callee"):
+        return "call:%s(%s)" % (s["callee"], ",".join(str(operand_key(a)) for a in C.call_args(s)))
+    return None
+
+
+def rel_facts(facts):
+    """normalised relational facts (lhs, op, rhs) that hold, from (atom, polarity) branch facts:
+    comparisons with the polarity applied (both orientations), and truth values as `x != 0` / `x == 0`"""
+    out = set()
+    for atom, pol in facts:
+        if isinstance(pol, tuple):
+            continue
+        a = atom.strip_all_casts()
+        if a.k == "BinaryOperator" and a.get("op") in NEG:
+            l, r = operand_key(a.child(0)), operand_key(a.child(1))
+            if l is None or r is None:
+                continue
+            op = a["op"] if pol else NEG[a["op"]]
+            out.add((l, op, r))
+            out.add((r, FLIP[op], l))
+        else:
+            k = operand_key(a)
+            if k is not None:
+                out.add((k, "!=" if pol else "==", ("c", 0)))
+                out.add((("c", 0), "!=" if pol else "==", k))
+    return out
+
+
+def holds_rel(facts, lhs, op, rhs):
+    """does one of the branch facts state (or trivially imply) lhs OP rhs ?  lhs/rhs: path or int"""
+    l = ("c", lhs) if isinstance(lhs, int) else lhs
+    r = ("c", rhs) if isinstance(rhs, int) else rhs
+    rf = rel_facts(facts) if not isinstance(facts, set) else facts
+    if (l, op, r) in rf:
+        return True
+    implied = {"<=": ["<", "=="], ">=": [">", "=="], "!=": ["<", ">"]}
+    for o2 in implied.get(op, []):
+        if (l, o2, r) in rf:
+            return True
+    # integer neighbours against constants: x > 0  <=>  x >= 1 ; x != 0 for unsigned handled by callers
+    if isinstance(rhs, int):
+        if op == ">" and (l, ">=", ("c", rhs + 1)) in rf:
+            return True
+        if op == ">=" and (l, ">", ("c", rhs - 1)) in rf:
+            return True
+        if op == "<" and (l, "<=", ("c", rhs - 1)) in rf:
+            return True
+        if op == "<=" and (l, "<", ("c", rhs + 1)) in rf:
+            return True
+    return False
+
+
+def effect_sites(prog, S, f, pred, depth=0):
+    """nodes of f that stand for an effect: direct calls satisfying pred, plus calls to static helpers on
+    every path of which such a call happens (so the helper call is the effect as far as f's CFG goes)"""
+    out = []
+    for c in f.calls():
+        if pred(c):
+            out.append((c, c, f))
+            continue
+        g = prog.fn(c.get("callee") or "")
+        if g is None or not g.static or depth > 2 or g.name == f.name:
+            continue
+        inner = effect_sites(prog, S, g, pred, depth + 1)
+        if not inner:
+            continue
+        pg = S.pg(g)
+        nodes = [x[0] for x in inner]
+        reach = pg.reachable([pg.entry], blocked_edge=lambda e: e.kind == "elem" and e.node in nodes)
+        if pg.exit not in reach:
+            out.append((c, inner[0][1], g))   # (representative node in f, the real call, its host)
+    return out
+
+
+def arg_through(prog, rep, real, host, i):
+    """argument i of the real call expressed in the caller: itself when rep is real, else the caller's
+    argument that feeds the helper parameter used there"""
+    a = arg(real, i)
+    if rep is real or a is None:
+        return a
+    p = a.strip_all_casts().get("path")
+    names = [q["name"] for q in host.params]
+    if p in names:
+        return arg(rep, names.index(p))
+    return None
